@@ -24,7 +24,6 @@ Notation L := (o_abs oA).
 Notation KE := (KEg c true).
 Notation KA := (KEg c false).
 
-Hypothesis Hrule : pert_free (o_rule oA).
 Hypothesis Hwabs : forall w, w_abs c w = [].
 Hypothesis Hfabs : forall f, f_abs c f = [].
 Hypothesis HF : Forest c.
@@ -67,13 +66,13 @@ Proof.
 Qed.
 
 (* a working step of run A against a step of run B *)
-Lemma working_half u v : mem (time u) L = false -> KA u v -> KE (half oA u) (half oB v).
+Lemma working_half u v : SortAgree c (o_rule oA) u v -> mem (time u) L = false -> KA u v -> KE (half oA u) (half oB v).
 Proof.
-  intros Hm H. unfold half. rewrite !step_perform_flag, !(time_step_allocate c), !step_allocate_flag, Hm.
+  intros Hrule Hm H. unfold half. rewrite !step_perform_flag, !(time_step_allocate c), !step_allocate_flag, Hm.
   change (negb (mem (time v) (o_abs oB))) with true. cbn [negb].
   change (sa_flag c oB true v) with (sa_flag c oA true v).
   change (sp_flag c oB true) with (sp_flag c oA true).
-  apply sp_flag_KE. apply sa_flag_KE; assumption.
+  apply sp_flag_KE. apply sa_flag_KE_gen; assumption.
 Qed.
 
 Definition next (o : opts) (u : pstate) : pstate :=
@@ -103,9 +102,13 @@ Qed.
 (* ----------------------------------------------------------- simulation *)
 (* what makes an absence step a stutter is left open: an invariant Iv of the
    loop heads of run A under which the step keeps the key *)
-Variable Iv : pstate -> Prop.
+Variable Iv IvB : pstate -> Prop.
 Hypothesis Iv_next : forall x, Iv x -> Iv (next oA (update c oA x)).
+Hypothesis IvB_next : forall y, IvB y -> IvB (next oB (update c oB y)).
 Hypothesis Iv_stutter : forall x, Iv x -> mem (time x) L = true -> KA (half oA (update c oA x)) (update c oA x).
+(* the two runs order the candidate tasks the same way at matched loop heads *)
+Hypothesis Iv_sort : forall x y, Iv x -> IvB y -> KA (update c oA x) (update c oA y) ->
+  SortAgree c (o_rule oA) (update c oA x) (update c oA y).
 
 Definition R (ra rb : row) : Prop := fst ra = true /\ fst rb = true /\ KE (snd ra) (snd rb).
 
@@ -114,11 +117,11 @@ Definition HeadRel (x y : pstate) : Prop :=
   \/ (KA (update c oA x) (update c oA y) /\ all_finished c (update c oA x) = false).
 
 Lemma sim x trA fA : trace_from c oA x trA fA -> status fA = StSuccess ->
-  forall y, Iv x -> PInv x -> HeadRel x y -> time y <= time x ->
+  forall y, Iv x -> IvB y -> PInv x -> HeadRel x y -> time y <= time x ->
   exists trB fB, trace_from c oB y trB fB /\ status fB = StSuccess /\ KE fA fB
                  /\ Forall2 R (keep L (time x) (perf_rows oA trA)) (perf_rows oB trB).
 Proof.
-  induction 1 as [x Ha|x Ha Hm|x rest fA Ha Hm s1 sa sp sr Hrest IH]; intros Hst y HI HP HR Hty.
+  induction 1 as [x Ha|x Ha Hm|x rest fA Ha Hm s1 sa sp sr Hrest IH]; intros Hst y HI HIB HP HR Hty.
   - destruct HR as [HR|[_ HR]]; [|rewrite Ha in HR; discriminate].
     exists [(time (update c oB y), PUpdated, update c oB y)], (with_status (update c oB y) StSuccess).
     split; [apply tr_success; change (update c oB y) with (update c oA y); rewrite <- (all_finished_KE _ _ _ HR); exact Ha|].
@@ -143,6 +146,7 @@ Proof.
       { eapply KE_trans; [apply KE_weaken; apply next_key|]. apply Iv_stutter; assumption. }
       destruct (IH Hst y) as (trB & fB & HtB & HsB & HfB & Hrows).
       * apply Iv_next. exact HI.
+      * exact HIB.
       * apply PInv_next. exact HP1.
       * right. split.
         -- eapply KE_trans; [apply update_KE; exact HK|].
@@ -154,7 +158,8 @@ Proof.
         cbn [keep]. rewrite Em. rewrite Etn in Hrows. exact Hrows.
     + (* working step: run B steps too *)
       set (v := update c oB y).
-      assert (HKE : KE (half oA s1) (half oB v)) by (apply working_half; [rewrite Et; exact Em|exact HKA]).
+      assert (HKE : KE (half oA s1) (half oB v)).
+      { apply working_half; [|rewrite Et; exact Em|exact HKA]. apply Iv_sort; assumption. }
       assert (HKn : KE (next oA s1) (next oB v)).
       { eapply KE_trans; [apply next_key|]. eapply KE_trans; [exact HKE|]. apply KE_sym. apply next_key. }
       assert (Etv : time v = time y) by (apply (time_update c oB)).
@@ -162,6 +167,7 @@ Proof.
       { unfold next. cbn [time with_time]. rewrite (time_step_record c oB), time_half. rewrite Etv. reflexivity. }
       destruct (IH Hst (next oB v)) as (trB & fB & HtB & HsB & HfB & Hrows).
       * apply Iv_next. exact HI.
+      * apply IvB_next. exact HIB.
       * apply PInv_next. exact HP1.
       * left. apply update_KE. exact HKn.
       * rewrite Etn, Etnv. lia.
